@@ -3,6 +3,7 @@
  * event order (msg_is_before from lp/msg.h - the properties leave its direction to the runtime, C16 checks its
  * shape) and (b) the numerical library (random.c, judged by C18). */
 #include <math.h>
+#include <stdio.h>
 #include <stdlib.h>
 #include <string.h>
 
@@ -43,8 +44,15 @@ void ref_ScheduleNewEvent(uint64_t receiver, double timestamp, unsigned type, co
 {
 	struct lp_msg *m = mkmsg(receiver, timestamp, type, content, size);
 	/* API contract (ROOT-Sim.h, debug assertions of process.c/serial.c): a generator bug if violated */
-	if(receiver >= SP->n_lps || type >= LP_INIT || !isfinite(timestamp) || msg_is_before(m, cur_msg))
-		RR->contract_breaches++;
+	if(receiver >= SP->n_lps || type >= LP_INIT || !isfinite(timestamp) || msg_is_before(m, cur_msg)) {
+		if(!RR->contract_breaches++)
+			snprintf(RR->breach, sizeof RR->breach, "lp %u handling (t=%a type=%u size=%u) scheduled (dest=%llu t=%a type=%u size=%u)", cur_lp,
+			    cur_msg->dest_t, cur_msg->m_type, cur_msg->pl_size, (unsigned long long)receiver, timestamp, type, size);
+	}
+	if(receiver >= SP->n_lps) { /* generator bug: never deliver to a non-existent LP */
+		free(m);
+		return;
+	}
 	if(timestamp == cur_msg->dest_t && cur_msg->m_type != LP_INIT)
 		RR->zero_delay++;
 #ifndef NDEBUG
